@@ -98,15 +98,24 @@ static void mv_model(long m, long n, long lda, @T@ *A, @T@ *x, @T@ *y) {
 #define ONE(a) (*(a) == 1)
 #endif
 /* vendor BLAS interface (USE_VENDOR_BLAS) */
-int @p@trsv_(char *uplo, char *trans, char *diag, int *n, @T@ *A, int *lda, @T@ *x, int *incx) { tri_model(*uplo, *trans, *diag, *n, *lda, A, x, *incx); return 0; }
+int @p@trsv_(char *uplo, char *trans, char *diag, int *n, @T@ *A, int *lda, @T@ *x, int *incx) {
+#if !defined(USE_VENDOR_BLAS) && BR <= 1
+  __CPROVER_assert(0, "build without USE_VENDOR_BLAS: the no-transpose branches do not call the BLAS entry points");
+#endif
+  tri_model(*uplo, *trans, *diag, *n, *lda, A, x, *incx); return 0; }
 int @p@gemv_(char *trans, int *m, int *n, @T@ *alpha, @T@ *A, int *lda, @T@ *x, int *incx, @T@ *beta, @T@ *y, int *incy) {
   __CPROVER_assert(*trans == 'N' && *incx == 1 && *incy == 1 && ONE(alpha) && ONE(beta), "gemv: no transpose, strides 1, alpha = beta = 1 (work += B*x)");
   mv_model(*m, *n, *lda, A, x, y); return 0;
 }
 /* the library's own kernels (?myblas2.c), used when USE_VENDOR_BLAS is not defined */
-void @p@lsolve(int_t ldm, int_t ncol, @T@ *M, @T@ *rhs) { tri_model('L', 'N', 'U', ncol, ldm, M, rhs, 1); }
-void @p@usolve(int_t ldm, int_t ncol, @T@ *M, @T@ *rhs) { tri_model('U', 'N', 'N', ncol, ldm, M, rhs, 1); }
-void @p@matvec(int_t ldm, int_t nrow, int_t ncol, @T@ *M, @T@ *vec, @T@ *Mxvec) { mv_model(nrow, ncol, ldm, M, vec, Mxvec); }
+#ifdef USE_VENDOR_BLAS
+#define OWN_KERNEL __CPROVER_assert(0, "build with USE_VENDOR_BLAS: the library's own kernels are not called");
+#else
+#define OWN_KERNEL
+#endif
+void @p@lsolve(int_t ldm, int_t ncol, @T@ *M, @T@ *rhs) { OWN_KERNEL tri_model('L', 'N', 'U', ncol, ldm, M, rhs, 1); }
+void @p@usolve(int_t ldm, int_t ncol, @T@ *M, @T@ *rhs) { OWN_KERNEL tri_model('U', 'N', 'N', ncol, ldm, M, rhs, 1); }
+void @p@matvec(int_t ldm, int_t nrow, int_t ncol, @T@ *M, @T@ *vec, @T@ *Mxvec) { OWN_KERNEL mv_model(nrow, ncol, ldm, M, vec, Mxvec); }
 
 void h_sptrsv(void) {
   in_L.Store = &in_Lstore; in_U.Store = &in_Ustore;
